@@ -7,13 +7,15 @@ LEVEL_NOTE = ('two clauses are decided by bounded model checking of the real cod
               'setLoopEnabled/setLoopHooksOnly/rewind on a sequencer whose single track has ended; marker detection/validation and loops in the middle of a song '
               '(buildSmfTrackData, the per-track part of processEvents) are not encoded (DESIGN.md section 4)')
 
+from obligations.C18 import HOOK_FOLLOW
+# one follow-up call per solver run (see obligations/C18.py)
 OBLIGATIONS = [
-    Ob('C09.persist.hooks', 'C09', 'ir/c18_settings.cpp', engine='ir', entry='harness_hooks', unwind=20, unwind_funcs=UF, unwindset={'memcmp.0': 40},
-       repo_tus=PLAYER_TUS, ir_opts=player_ir_opts(stub_funcs='setErrorString'), timeout={'quick': 1500, 'thorough': 3000},
-       desc='loop-start / loop-end callbacks registered through opn2_setLoopStartHook / opn2_setLoopEndHook are still the ones installed in the sequencer interface after opn2_reset, opn2_switchEmulator, opn2_setNumChips, opn2_setRunAtPcmRate or opn2_setChipType',
-       bounds='one reconfiguration call out of five after registration; OPNMIDI_MIDI2VGM build configuration (the shipped one)', stubs=ST),
+    Ob('C09.persist.hooks.' + nm, 'C09', 'ir/c18_settings.cpp', engine='ir', entry='harness_hooks', defines=['FOLLOW=%d' % k], unwind=20, unwind_funcs=UF, unwindset={'memcmp.0': 40},
+       repo_tus=PLAYER_TUS, ir_opts=player_ir_opts(stub_funcs='setErrorString'), timeout={'quick': 900, 'thorough': 3000},
+       desc='loop-start / loop-end callbacks registered through opn2_setLoopStartHook / opn2_setLoopEndHook are still the ones installed in the sequencer interface after ' + call,
+       bounds='reconfiguration call after registration: %s; OPNMIDI_MIDI2VGM build configuration (the shipped one)' % call, stubs=ST)
+    for k, (nm, call) in enumerate(HOOK_FOLLOW)
 ]
-
 OBLIGATIONS.append(
     Ob('C09.loop.decision', 'C09', 'ir/c09_loop.cpp', engine='ir', entry='harness_loop', unwind=20, unwindset={'memcmp.0': 40},
        repo_tus=['src/opnmidi_sequencer.cpp'], ir_opts={'chip_defs': [], 'tv_vectors': 12}, timeout={'quick': 900, 'thorough': 2400},
